@@ -408,6 +408,14 @@ pub fn evaluate(prog: &Program, out: &RunOut) -> (Vec<Viol>, Feat) {
         });
     }
 
+    for d in out.exec.waker_misuse.iter() {
+        v.push(Viol {
+            pred: "dead_waker_used",
+            op: None,
+            detail: d.clone(),
+        });
+    }
+
     // ---- ledger ---------------------------------------------------------------
     ledger_preds(&a, &mut v, &mut f);
 
